@@ -21,7 +21,8 @@ fn pb(v: &Val) -> PathBuf {
     PathBuf::from(OsStr::from_bytes(&v.bytes()))
 }
 
-/// case: (cwd xdg_config_home opts custom_names ignore_files globs types max_depth_opt roots follow_links)
+/// case: (cwd xdg_config_home opts custom_names ignore_files globs types max_depth_opt roots follow_links home)
+///   xdg_config_home empty = unset
 ///   opts = (hidden ignore parents git_global git_ignore git_exclude require_git)
 ///   types = list of (ext negated)
 /// result: (status files) with files = sorted list of paths the haystack filter lets through
@@ -30,8 +31,12 @@ pub fn run_lib_files(v: &Val) -> Val {
     if std::env::set_current_dir(&cwd).is_err() {
         return Val::L(vec![Val::N(9)]);
     }
-    std::env::set_var("XDG_CONFIG_HOME", pb(v.fld(1)));
-    std::env::set_var("HOME", pb(v.fld(1)).join("nohome"));
+    if v.fld(1).list().is_empty() {
+        std::env::remove_var("XDG_CONFIG_HOME");
+    } else {
+        std::env::set_var("XDG_CONFIG_HOME", pb(v.fld(1)));
+    }
+    std::env::set_var("HOME", pb(v.fld(10)));
     let o = v.fld(2);
     let roots: Vec<PathBuf> = v.fld(8).list().iter().map(pb).collect();
     if roots.is_empty() {
